@@ -247,6 +247,8 @@ class ULPIHost:
             for k in range(tail):
                 await self.cycle(ctx, "cmd", VBUS_VALID | (LS_J if k == tail - 1 else LS_SE0))
             await self.cycle(ctx, "down")
+            if tail == 0:                                  # the line returns to J: a real PHY reports it (else: SE0 = bus reset)
+                self.rxcmd_at[self.cycle_no + 1 + pat.get("post", 0)] = LS_J
         else:
             await self.cycle(ctx, "down")
             self.last_rx_end = self.cycle_no            # the cycle in which DIR is low again
